@@ -26,8 +26,8 @@ var c13Exceptions = []c13Exception{
 		Reason: "error of eat.Profile.Get: only for a Profile value that was never set, which neither the constructor nor a decoder produces (a decoded profile claim is either absent=nil pointer or set)"},
 	{Fn: "(*psatoken.P2Claims).SetNonce", Marker: "external:(*github.com/veraison/eat.Nonce).Add", Origin: "(*psatoken.P2Claims).SetNonce",
 		Reason: "error of eat.Nonce.Add is unreachable: Add fails only for lengths outside [8,64] and the call is reached only with len in {32,48,64} (premise checked by the interval engine in this run)"},
-	{Fn: "*", Marker: "fresh", Origin: "psatoken.validateAndConvert[*psatoken.SwComponent]",
-		Reason: "type-mismatch error for a foreign ISwComponent implementation; the property quantifies over the library's own component type only"},
+	{Fn: "*", Marker: "fresh", Origin: "@failed-component-type-assertion",
+		Reason: "type-mismatch error for a foreign ISwComponent implementation (constructed on the failing edge of the comma-ok assertion to the container's element type); the property quantifies over the library's own component type only"},
 }
 
 func checkC13(w *World, r *Recorder) propInfo {
@@ -195,7 +195,11 @@ func checkC13(w *World, r *Recorder) propInfo {
 				originFn = fnKey(a.Origin.Parent())
 			}
 			for i, x := range c13Exceptions {
-				if x.Origin == originFn && len(marks) > 0 && strings.HasPrefix(marks[0], x.Marker) && len(marks) == 1 {
+				okOrigin := x.Origin == originFn
+				if x.Origin == "@failed-component-type-assertion" {
+					okOrigin = onFailedComponentAssertion(a.Origin)
+				}
+				if okOrigin && len(marks) > 0 && strings.HasPrefix(marks[0], x.Marker) && len(marks) == 1 {
 					exc = i
 				}
 			}
@@ -233,9 +237,13 @@ func checkC13(w *World, r *Recorder) propInfo {
 		c13Paths(w, r, sc.fn, sc.kind, sc.typ, sc.row)
 	}
 
+	// K5: the container's emptiness test, which decides between the
+	// missing-mandatory class and the walk that reports wrong-syntax
+	ruleIsEmptyMeansNoEntries(w, r, "C13-K5")
+
 	r.Floor("C13-K1", 11)
-	r.Floor("C13-K2", 100)
-	r.Floor("C13-K3", 90)
+	r.Floor("C13-K2", 40)
+	r.Floor("C13-K3", 35)
 	r.Floor("C13-K4", 1)
 	return info
 }
@@ -507,6 +515,32 @@ func c13IsWalker(w *World, fn *ssa.Function) bool {
 		if n, ok := t.(*types.Named); ok && types.IsInterface(n) && n.Obj().Pkg() != nil && w.InRepoPath(n.Obj().Pkg().Path()) {
 			return true
 		}
+	}
+	return false
+}
+
+// onFailedComponentAssertion: the instruction lies in a block that is entered
+// only through the false edge of `v, ok := x.(T)` where x is a component
+// interface value (the "incorrect type" error of the generic container).
+func onFailedComponentAssertion(in ssa.Instruction) bool {
+	if in == nil || in.Block() == nil {
+		return false
+	}
+	b := in.Block()
+	for depth := 0; depth < 3 && b != nil; depth++ {
+		if len(b.Preds) != 1 {
+			return false
+		}
+		p := b.Preds[0]
+		if ifi, ok := p.Instrs[len(p.Instrs)-1].(*ssa.If); ok {
+			ex, ok := ifi.Cond.(*ssa.Extract)
+			if !ok || ex.Index != 1 || p.Succs[1] != b {
+				return false
+			}
+			ta, ok := ex.Tuple.(*ssa.TypeAssert)
+			return ok && ta.CommaOk && strings.HasSuffix(ta.X.Type().String(), "ISwComponent")
+		}
+		b = p
 	}
 	return false
 }
